@@ -52,6 +52,8 @@
 #define _VAR_CLOSE  '}'
 #define _VAR_CMD    '!'
 #define _VAR_ENV    '%'
+#define _MAX_EXPANSIONS (100)          /* substitution rounds per value */
+#define _MAX_VALUESIZE  (1024 * 1024)  /* size limit of an expanded value */
 
 /* internal functions */
 static char *_parsestr(qlisttbl_t *tbl, const char *str);
@@ -301,6 +303,9 @@ qlisttbl_t *qconfig_parse_str(qlisttbl_t *tbl, const char *str, char sepchar) {
  * @return malloced string if successful, otherwise returns NULL.
  * @retval errno will be set in error condition.
  *  - EINVAL : Invalid argument.
+ *  - ENOMEM : Memory allocation failure.
+ *  - ELOOP  : Too many expansions or expanded value too big; most likely a
+ *             self-referential variable. The entry is not stored.
  *
  * @code
  *  ${key_name}          - replace this with a matched value data in this list.
@@ -330,6 +335,7 @@ static char *_parsestr(qlisttbl_t *tbl, const char *str) {
     }
 
     bool loop;
+    int rounds = 0;
     char *value = strdup(str);
     do {
         loop = false;
@@ -415,6 +421,18 @@ static char *_parsestr(qlisttbl_t *tbl, const char *str) {
             free(varstr);
             free(value);
             value = s;
+
+            // The replaced text is scanned again, so a value which refers to
+            // itself (directly or through others) would be expanded forever.
+            if (value == NULL) {
+                errno = ENOMEM;
+                return NULL;
+            }
+            if (++rounds > _MAX_EXPANSIONS || strlen(value) > _MAX_VALUESIZE) {
+                free(value);
+                errno = ELOOP;
+                return NULL;
+            }
 
             loop = true;
             break;
